@@ -68,6 +68,33 @@ try:
         res["suite_ok"] = c.returncode == 0
         res["suite_summary"] = c.stdout.strip().splitlines()[0] if c.stdout else ""
         print(f"suite ({time.time() - t0:.0f}s): {c.stdout.strip()[:600]}")
+        if not res["suite_ok"]:
+            # re-run the missing stable tests on their own (the learning tests are sensitive to load / thread count)
+            missing = [l.split("MISSING", 1)[1].strip() for l in c.stdout.splitlines() if "MISSING" in l]
+            nodes = []
+            for m in missing:
+                left, _, name = m.partition("::")
+                parts = left.split(".")
+                for cut in range(len(parts), 0, -1):
+                    f = os.path.join(patched, *parts[:cut]) + ".py"
+                    if os.path.exists(f):
+                        nodes.append("::".join([os.path.join(*parts[:cut]) + ".py"] + parts[cut:] + [name]))
+                        break
+            if nodes and len(nodes) <= 10:
+                e2 = dict(e)
+                for k in ("OMP_NUM_THREADS", "MKL_NUM_THREADS", "OPENBLAS_NUM_THREADS"):
+                    e2.pop(k, None)
+                ok = False
+                for attempt in range(2):
+                    r2 = subprocess.run(["/venv/bin/python", "-m", "pytest", "-q", "-p", "no:cacheprovider", "--timeout=900", *nodes],
+                                        cwd=patched, env=e2, capture_output=True, text=True)
+                    if r2.returncode == 0:
+                        ok = True
+                        break
+                print(f"re-run of {len(nodes)} missing stable test(s) on the patched tree: {'pass' if ok else 'FAIL'}")
+                if ok:
+                    res["suite_ok"] = True
+                    res["suite_summary"] += f"; {len(nodes)} test(s) missing in the full run passed when re-run alone: {nodes}"
     checks = (a.checks.split(",") if a.checks else [a.pid])
     res["checks"] = {}
     for c in checks:
